@@ -458,6 +458,74 @@ def psk_client_hellos(ctx):
     ctx.extra["exhaustive"] = True
 
 
+
+def quic_flight_sequences(ctx, maxlen, part, nparts, adversary, only=None):
+    """The same server-flight sequences at the QUIC level: an aioquic client connection (QuicConnection), each handshake message in a datagram of its
+    own, all of them handed to receive_datagram before the caller asks for datagrams to send (a caller that drains its socket first).
+    adversary 'sent': Finished / CertificateVerify are computed over everything sent; 'accepted': over the messages TLS 1.3 permits at their position
+    only (what a client that refuses the others has in its transcript).  Oracle: HandshakeCompleted iff a prefix of the flight is the legal one."""
+    from vlib import endpoints as E, tlspeer as TP
+
+    other_key = E.load_key("client.key")
+    alphabet = ["EE", "CR", "Cert", "CV", "CVbad", "Fin"]
+    nxt = {("EE", "EE"): "CR|Cert", ("CR|Cert", "CR"): "Cert", ("CR|Cert", "Cert"): "CV", ("Cert", "Cert"): "CV", ("CV", "CV"): "Fin", ("Fin", "Fin"): "done"}
+    i = 0
+    for seq in multiset_sequences(alphabet, maxlen) if only is None else [tuple(only)]:
+        if "CV" in seq and "CVbad" in seq:
+            continue
+        i += 1
+        if i % nparts != part and only is None:
+            continue
+        with E.pinned(("c11-quic-seq", adversary)):
+            sp = TP.ServerPeer()
+            ref = sp.ref
+            ref.receive_client_hello(sp.client_hello)
+            sp.send_crypto("initial", ref.server_hello(), pad_to=1200)
+            sp.after_server_hello()
+            sp.pump_sut()
+            st = "EE"
+            for sym in seq:
+                saved = ref.ks.copy()
+                if sym == "EE":
+                    m = ref.encrypted_extensions()
+                elif sym == "CR":
+                    m = ref.certificate_request()
+                elif sym == "Cert":
+                    m = ref.certificate()
+                elif sym == "CV":
+                    m = ref.certificate_verify()
+                elif sym == "CVbad":
+                    m = ref.certificate_verify(private_key=other_key, algorithm=0x0807)
+                else:
+                    m = ref.finished()
+                to = nxt.get((st, sym))
+                if to is None:
+                    if adversary == "accepted":
+                        ref.ks = saved
+                else:
+                    st = to
+                sp.send_crypto("handshake", m)
+            sp.pump_sut()
+            names = [type(e).__name__ for e in sp.events]
+            completed = "HandshakeCompleted" in names
+            legal = legal_server_flight(seq, False)
+            prefix_legal = any(legal_server_flight(seq[:n], False) for n in range(len(seq) + 1))
+            case = {"kind": "qseq", "adversary": adversary, "seq": list(seq)}
+            near = edit_distance_one(seq, [("EE", "Cert", "CV", "Fin"), ("EE", "CR", "Cert", "CV", "Fin")])
+            ctx.case(("qsf", adversary, seq), nontrivial=near and not legal, classes=["quic-server-flight:" + adversary, "quic-server-flight:" + ("legal" if legal else "illegal")])
+            if completed and not prefix_legal:
+                ctx.violation(
+                    "client-finished-after-illegal-server-flight",
+                    "QUIC level: the aioquic client emitted HandshakeCompleted after the server flight %s (one message per datagram, all received before the next datagrams_to_send; MACs over the %s transcript); close state %r" % (list(seq), adversary, sp.sut._close_event),
+                    case,
+                )
+            if legal and not completed:
+                ctx.violation("client-refused-legal-server-flight", "QUIC level: the legal flight %s did not complete the handshake (events %s, close %r)" % (list(seq), names, sp.sut._close_event), case)
+            if ctx.want_sample():
+                ctx.sample(case)
+    ctx.extra["exhaustive"] = True
+
+
 def replay(ctx, case):
     k = case.get("kind")
     if k == "table":
@@ -468,6 +536,8 @@ def replay(ctx, case):
         client_flight_sequences(ctx, max(len(case["seq"]), 1), 0, 1, case["request"])
     elif k == "pskch":
         psk_client_hellos(ctx)
+    elif k == "qseq":
+        quic_flight_sequences(ctx, max(len(case["seq"]), 1), 0, 1, case["adversary"], only=case["seq"])
 
 
 def plan(tier, seed):
@@ -483,6 +553,9 @@ def plan(tier, seed):
     for leaf in ("selfsigned", "foreign", "expired", "wrongname"):
         t.append(("server-flight-untrusted-%s" % leaf, {"fn": "sf", "maxlen": 4 if q else 5, "part": 0, "nparts": 1, "psk": False, "leaf": leaf}))
     t.append(("psk-client-hellos", {"fn": "pskch"}))
+    for adv in ("sent", "accepted"):
+        for p in range(2):
+            t.append(("quic-server-flight-%s-part%d" % (adv, p), {"fn": "qsf", "maxlen": 5 if q else 6, "part": p, "nparts": 2, "adversary": adv}))
     for req in (False, True):
         for p in range(2):
             t.append(("client-flight-%s-part%d" % ("requested" if req else "plain", p), {"fn": "cf", "maxlen": 5 if q else 6, "part": p, "nparts": 2, "request": req}))
@@ -494,6 +567,8 @@ def run_task(ctx, name, fn, **kw):
         table(ctx, kw["state"])
     elif fn == "pskch":
         psk_client_hellos(ctx)
+    elif fn == "qsf":
+        quic_flight_sequences(ctx, kw["maxlen"], kw["part"], kw["nparts"], kw["adversary"])
     elif fn == "sf":
         server_flight_sequences(ctx, kw["maxlen"], kw["part"], kw["nparts"], kw["psk"], kw.get("leaf", "ed25519"))
     else:
